@@ -153,7 +153,8 @@ def Toc.markPersistent : Toc → Nat → Toc
 inductive FState
   | info      -- GET_TOC_INFO
   | element   -- GET_TOC_ELEMENT
-  | done      -- finished: `remove_port_callback` was called, no packet reaches the object any more
+  | done      -- finished: port callback and `disconnected` callback removed, no packet reaches the object any more
+  | aborted   -- `_disconnected` ran before the download finished: both callbacks removed, nothing was signalled
   deriving Repr, DecidableEq
 
 structure Fetcher where
@@ -226,6 +227,7 @@ def Fetcher.onPacket (dec : Nat → Bytes → Except PyErr Elem) (f : Fetcher) (
   let payload := data.drop Gen.C03.payloadDrop
   match f.st with
   | .done => .ok ⟨f, [], false⟩
+  | .aborted => .ok ⟨f, [], false⟩
   | .info =>
     match unpackInfo f.v2 payload with
     | .error e => .error e
@@ -252,6 +254,29 @@ def Fetcher.onPacket (dec : Nat → Bytes → Except PyErr Elem) (f : Fetcher) (
           | .error e => .error e
         else .ok ⟨{ f with toc := toc', st := .done }, [], true⟩
 
+/-- are the port callback and the `disconnected` callback registered? (`start` registers both,
+`_toc_fetch_finished` and `_disconnected` remove both) -/
+def Fetcher.registered (f : Fetcher) : Bool :=
+  match f.st with
+  | .info | .element => true
+  | .done | .aborted => false
+
+/-- `TocFetcher._disconnected` (called through `cf.disconnected` only while it is registered) -/
+def Fetcher.disconnect (f : Fetcher) : Fetcher :=
+  if f.registered then { f with st := .aborted } else f
+
+/-- the dispatcher: one packet is offered to every fetcher object ever started on the port (the callbacks of
+the unregistered ones are not in the list: `onPacket` leaves them alone); an exception in one callback is
+caught and does not affect the others.  Returns the objects, everything sent, and the finished signals. -/
+def dispatchAll (dec : Nat → Bytes → Except PyErr Elem) (chan : Nat) (data : Bytes) :
+    List Fetcher → List Fetcher × List Bytes × Nat
+  | [] => ([], [], 0)
+  | f :: fs =>
+    let (fs', sends, fin) := dispatchAll dec chan data fs
+    match f.onPacket dec chan data with
+    | .ok r => (r.f :: fs', r.sends ++ sends, (if r.finished then 1 else 0) + fin)
+    | .error _ => (f :: fs', sends, fin)
+
 /-! ## `Param.refresh_toc.refresh_done` and `_ExtendedTypeFetcher` -/
 
 structure ExtF where
@@ -261,6 +286,7 @@ structure ExtF where
   locked : Bool           -- `_lock` held
   toc : Toc
   done : Nat              -- how often the done callback was called
+  active : Bool           -- port callback and `disconnected` callback registered (from `__init__` until `_close()`)
   deriving Repr, DecidableEq
 
 /-- the request packet of `request_extended_types`: `struct.pack('<BH', MISC_GET_EXTENDED_TYPE, ident)` -/
@@ -275,7 +301,7 @@ def refreshDone (toc : Toc) : Except PyErr (Option ExtF) :=
     match ext.mapM (fun e => extRequest e.ident) with
     | .error e => .error e
     | .ok _ => .ok (some { queue := ext.map (·.ident), reqParam := none, count := ext.length,
-                           locked := false, toc := toc, done := 0 })
+                           locked := false, toc := toc, done := 0, active := true })
   else .ok none
 
 /-- one iteration of `_ExtendedTypeFetcher.run` (enabled when the queue is non-empty and the lock free):
@@ -290,6 +316,7 @@ def ExtF.worker (x : ExtF) : Option (ExtF × Bytes) :=
 
 /-- `_ExtendedTypeFetcher._new_packet_cb` -/
 def ExtF.onPacket (x : ExtF) (chan : Nat) (data : Bytes) : Except PyErr ExtF :=
+  if ¬ x.active then .ok x else       -- `_close()` removed the callback: the dispatcher no longer calls it
   if chan ≠ Gen.C03.miscChannel then .ok x else
   match unpack (parseFmt! Gen.C03.extIdFmt) ((data.drop 1).take 2) with
   | .error e => .error e
@@ -309,11 +336,16 @@ def ExtF.onPacket (x : ExtF) (chan : Nat) (data : Bytes) : Except PyErr ExtF :=
         | .ok toc' =>
           let c := x.count - 1
           if c = 0 then
-            -- done callback, then `_close()` empties the queue and releases the lock
-            .ok { x with toc := toc', count := c, done := x.done + 1, queue := [], reqParam := none, locked := false }
+            -- done callback, then `_close()` unregisters, empties the queue and releases the lock
+            .ok { x with toc := toc', count := c, done := x.done + 1, queue := [], reqParam := none, locked := false,
+                         active := false }
           else .ok { x with toc := toc', count := c, reqParam := none, locked := false }
     else .ok x
   | .ok _ => .error .indexError
+
+/-- `_ExtendedTypeFetcher._disconnected` (only called while registered): `_req_param = -1`, `_close()` -/
+def ExtF.disconnect (x : ExtF) : ExtF :=
+  if x.active then { x with reqParam := none, queue := [], locked := false, active := false } else x
 
 /-! ## `Log.refresh_toc` / reset reply: the log download starts once per refresh
 
